@@ -547,6 +547,32 @@ def c15_r8(ctx):
                    detail="returns %s (%s)" % (sorted(outs), want["why"]), loc=f.loc)
 
 
+@rule("C15", "R14", "K8", "negating a query that matches nothing matches everything, also after normalize()",
+      min_instances=1,
+      clause="Not.normalize(), on the path where the normalised sub-query is NullQuery, returns a match-everything query (Every), as the "
+             "un-normalised Not(NullQuery) does through InverseMatcher over an empty child; returning the NullQuery itself turns "
+             "'everything' into 'nothing' (x OR NOT <nothing> loses every document that x does not match).")
+def c15_r14(ctx):
+    prog = ctx.prog
+    f = prog.method("query.wrappers.Not", "normalize", inherited=False)
+    ctx.saw(f)
+    from .. import shapes as S
+    sym, pths = S.paths(f)
+    d = norm.definitions(f.node)
+    qn = [k for k, v in d.items() if norm.canon(v) == "self.query.normalize()"]
+    if len(qn) != 1:
+        ctx.ob(f, False, "normalize() normalises the sub-query into a local")
+        return
+    outs = set()
+    for conds, _, node in pths:
+        if node is None or node.ast.value is None:
+            continue
+        if ("T", "(%s is qcore.NullQuery)" % qn[0]) in conds:
+            outs.add(norm.canon(node.ast.value))
+    ok = bool(outs) and all(o.startswith(("qcore.Every(", "Every(")) for o in outs)
+    ctx.ob(f, ok, "sub-query normalises to NullQuery -> result Every()", detail="returns %s" % sorted(outs))
+
+
 RECON_OK = {
     # (function, constructor parameter): why the re-created object need not carry it
     ("query.spans.Span.to", "boost"): "a span covering two spans has no single boost to inherit; Span.boost is only set by payload-aware subclasses",
